@@ -521,7 +521,13 @@ func init() {
 		return nil
 	})
 	reg(vrtPkg+"Tag", func(fr *frame, a []value) value {
-		fr.i.px.tags = append(fr.i.px.tags, mustGoString(fr, a[0], "tag"))
+		tg := mustGoString(fr, a[0], "tag")
+		for _, t := range fr.i.px.tags {
+			if t == tg {
+				return nil
+			}
+		}
+		fr.i.px.tags = append(fr.i.px.tags, tg)
 		return nil
 	})
 	reg(vrtPkg+"Trace", func(fr *frame, a []value) value {
